@@ -82,4 +82,11 @@ func NewStatsCommand$1$1 returns (err)
     assert @wiring [C16] #arg0 == o.GlobalConfig.LogFileName && #arg1 == o.GlobalConfig.DbFileName && #arg2.Now == o.GlobalConfig.Now && #arg2.ParserConfig == o.ParserConfig && #arg2.ReporterConfig == o.ReporterConfig
   }
 
+
+// the command's own flag table: the option names the options loader and the reporters read (C16)
+func NewStatsCommand returns (cmd)
+  props C16 C08
+  ensures @name [C16] cmd != nil && cmd.Name == "stats"
+  ensures @flags [C16] len(cmd.Flags) == 0
+
 @*/
